@@ -124,6 +124,17 @@ class _Canon(ast.NodeTransformer):
                                                    op=node.value.op, value=node.value.right), node)
         return node
 
+    def visit_For(self, node):
+        self.generic_visit(node)
+        # `for k in (n := E): BODY`  ->  n = E; for k in n: BODY
+        if isinstance(node.iter, ast.NamedExpr) and isinstance(node.iter.target, ast.Name):
+            ne = node.iter
+            asg = ast.copy_location(ast.Assign(targets=[ast.Name(id=ne.target.id, ctx=ast.Store())], value=ne.value), node)
+            node.iter = ast.copy_location(ast.Name(id=ne.target.id, ctx=ast.Load()), ne)
+            ast.fix_missing_locations(asg)
+            return [asg, node]
+        return node
+
     def visit_While(self, node):
         self.generic_visit(node)
         # `while (x := E) is not None: BODY`  ->  while True: x = E; if x is None: break; BODY   (no else clause: leaving through the
